@@ -39,7 +39,7 @@ def canon(v, _depth=0):
         return ["R", float(v)]
     if isinstance(v, dict):
         items = [[canon(k, _depth + 1), canon(x, _depth + 1)] for k, x in v.items()]
-        items.sort(key=lambda kv: repr(kv[0]))
+        items.sort(key=_dkey)
         return ["D", items]
     if _is_torch(v) and hasattr(v, "detach"):
         t = v.detach().cpu()
@@ -72,6 +72,13 @@ def canon(v, _depth=0):
     if callable(v):
         return ["F", None]
     return ["X", type(v).__name__, repr(v)[:80]]
+
+
+def _dkey(kv):
+    k = kv[0]
+    if k[0] in ("I", "R"):
+        return "0num:%024.9f" % (float(k[1]) + 1e12)
+    return repr(k)
 
 
 def _fast(x, tag):
@@ -266,5 +273,5 @@ def C(ch): return ["C", ch]
 def S(t): return ["S", t]
 def Y(n): return ["Y", n]
 def L(xs): return ["L", list(xs)]
-def D(items): return ["D", sorted([[k, v] for k, v in items], key=lambda kv: repr(kv[0]))]
+def D(items): return ["D", sorted([[k, v] for k, v in items], key=_dkey)]
 U = ["U"]
